@@ -1,6 +1,6 @@
 """C05 - transaction (de)serialisation round trip, legacy and segwit; CompactSize."""
 from vf.enum import deviations
-from vf.props.txgen import SEQS, lib_rebuild, lib_serialise, make_tx
+from vf.props.txgen import SEQS, lib_rebuild, lib_serialise, make_tx, textual_txs
 from vf.ref import tx_ref as R
 from vf.runner import Acc, filler
 
@@ -20,12 +20,14 @@ OBLIGATIONS = {
     "empty_witness_mixed": "a segwit tx with an empty stack for one input and a non-empty one for another",
     "witness_item_ge_253": "a witness item of >= 253 bytes", "script_ge_253": "a script of >= 253 bytes",
     "count_ge_253": "an input or output count >= 253", "trailing_data": "trailing bytes after the transaction",
+    "text_lookalike_tx": "a well-formed legacy transaction made only of ASCII hex digits and whitespace",
+    "long_structure": "a count of more than 1000 inputs/outputs/witness items",
     "compact_out_of_range": "an integer outside [0, 2^64-1] offered to the CompactSize encoder",
 }
 BOUND = {"quick": "deviation <= 2", "thorough": "deviation <= 3"}
 LENS = [0, 1, 75, 76, 252, 253, 255, 256, 65535, 65536]
-COUNTS = [1, 2, 3, 252, 253, 300]
-STACKS = [[72, 33], [], [1], [0], [253], [0, 0], [252, 1, 0], [255, 256], [65535], [65536, 1], [1, 2, 3]]
+COUNTS = [1, 2, 3, 252, 253, 300, 1100]
+STACKS = [[72, 33], [], [1], [0], [253], [0, 0], [252, 1, 0], [255, 256], [65535], [65536, 1], [1, 2, 3], [1] * 1100]
 
 
 def dims(base="legacy"):
@@ -69,12 +71,20 @@ def _fix(a):
 
 def chk_tx(case):
     import bits.tx as btx
-    a = _fix(case["a"])
-    T = make_tx(case["seed"], a, "c05")
+    if "textual" in case:
+        T = textual_txs()[case["textual"]]
+        a = {"segwit": False, "n_in": len(T.ins), "n_out": len(T.outs), "ss0": len(T.ins[0][2]), "spk0": len(T.outs[0][1]), "wit0": [], "witrest": [],
+             "trailing": case["tr"], "seq0": "text"}
+    else:
+        a = _fix(case["a"])
+        T = make_tx(case["seed"], a, "c05")
     if T is None:
         return []
     raw = T.ser()
-    tr = trailing(case["seed"], a["trailing"])
+    if "textual" in case and case["tr"] == 4:
+        tr = b"0a 0B\n"
+    else:
+        tr = trailing(case["seed"], a["trailing"])
     out = []
     cls = _cls(a, T)
     d = call(btx.tx_deser, raw + tr)
@@ -91,6 +101,21 @@ def chk_tx(case):
         out.append(("C05/deser/phantom-witness", "legacy tx parsed with witnesses"))
     if left != tr:
         out.append((f"C05/deser/leftover/{cls}", f"leftover {left.hex()[:40]} ({len(left)}B) != trailing {tr.hex()[:40]} ({len(tr)}B) ({_desc(a)})"))
+    if not out:
+        # aliasing: the caller may edit what it was handed; a second parse of the same bytes must not see those edits
+        import copy
+        keep = copy.deepcopy(dd)
+        for ti in dd.get("txins", []):
+            ti["scriptsig"], ti["sequence"], ti["vout"] = "00", "00000000", 7
+        for to in dd.get("txouts", []):
+            to["value"] = 1
+        dd.get("txins", []).append({"bogus": 1})
+        if "witnesses" in dd:
+            dd["witnesses"].clear()
+        d2 = call(btx.tx_deser, raw + tr)
+        if d2[0] != "ok" or {k: d2[1][0].get(k) for k in exp} != exp:
+            out.append((f"C05/deser/aliased-result/{cls}", f"a second tx_deser of the same bytes differs after the caller edited the first result ({_desc(a)})"))
+        dd = keep
     if not out:
         rb = call(lib_rebuild, dd)
         if rb != ("ok", raw):
@@ -164,6 +189,7 @@ def jobs(tier, seed):
     for sh in range(4):
         js.append({"name": f"compact/{sh}", "part": "compact", "shard": [sh, 4], "weight": 3})
     js.append({"name": "corpus", "part": "corpus"})
+    js.append({"name": "textual", "part": "textual", "weight": 2})
     from vf.runner import seq_jobs
     js += seq_jobs(3, weight=3)
     return js
@@ -179,7 +205,7 @@ def run_job(job):
         sh, nsh = job["shard"]
         d = 2 if job["tier"] == "quick" else 3
         big = lambda a: (a["n_in"] >= 252) + (a["n_out"] >= 252) + (a["ss0"] >= 65535) + (a["spk0"] >= 65535) + \
-            (max(a["wit0"] or [0]) >= 65535)
+            (max(a["wit0"] or [0]) >= 65535) + (len(a["wit0"]) > 100)
         import itertools
         gen = itertools.chain(deviations(dims("legacy"), d), deviations(dims("segwit"), d))
         seen = set()
@@ -207,11 +233,21 @@ def run_job(job):
                 acc.ob("script_ge_253")
             if a["n_in"] >= 253 or a["n_out"] >= 253:
                 acc.ob("count_ge_253")
+            if a["n_in"] > 1000 or a["n_out"] > 1000 or len(a["wit0"]) > 1000:
+                acc.ob("long_structure")
             if a["trailing"]:
                 acc.ob("trailing_data")
             acc.check("tx", {"seed": seed, "a": a}, chk_tx)
             if acc.evaluations % 400 == 1:
                 acc.sample(_desc(a))
+    elif job["part"] == "textual":
+        for i in range(len(textual_txs())):
+            for tr in (0, 1, 4):
+                acc.evaluations += 1
+                acc.nontrivial += 1
+                acc.ob("text_lookalike_tx")
+                acc.check("tx", {"seed": seed, "textual": i, "tr": tr}, chk_tx)
+        acc.sample({"textual_txs": len(textual_txs()), "first_bytes": textual_txs()[0].ser()[:24].decode("latin1")})
     elif job["part"] == "compact":
         sh, nsh = job["shard"]
         ns = list(range(0, 2 ** 16 + 3))
